@@ -167,14 +167,14 @@ def run_cases(ctx, cases, model_decode_every=1):
             if d and n_dis < 25:
                 n_dis += 1
                 rep.disagree('H-nmea', {'entry': 'decode_nmea_line', 'raw': p.text.hex(), 'text': repr(p.text)[:160], 'kind': kind},
-                             m[:2] + (d,), r[:2])
+                             nc.short_outcome(m) + (d,), nc.short_outcome(r))
         if i in m_dec:
             for st, res, m in ((False, lenient, m_dec[i][0]), (True, strict, m_dec[i][1])):
                 d = nc.diff_decode(res, m)
                 if d and n_dis < 25:
                     n_dis += 1
                     rep.disagree('H-nmea', {'entry': 'decode', 'strict': st, 'parts': [t.hex() for t in texts],
-                                            'text': [repr(t)[:120] for t in texts], 'kind': kind}, m[:2] + (d,), res[:2])
+                                            'text': [repr(t)[:120] for t in texts], 'kind': kind}, nc.short_outcome(m) + (d,), nc.short_outcome(res))
         in_scope = all(s[0] and s[2] is not None for s in specs)
         rep.count('in-scope' if in_scope else 'out-of-scope')
         if not in_scope:
@@ -283,6 +283,8 @@ def generate(ctx, deep=False):
 def run(ctx):
     cases = generate(ctx)
     run_cases(ctx, cases, model_decode_every=3 if ctx.quick else 1)
+    if ctx.rep.disagreements or ctx.rep.violations:
+        return      # the generator self-check below is only meaningful when implementation and model agree
     d = ctx.rep.dist
     for k in ('demanded:valid', 'demanded:invalid', 'strict:InvalidNMEAChecksum', 'strict:Ok', 'multi', 'subst', 'chk-value'):
         if d.get(k, 0) < 20:
